@@ -388,6 +388,11 @@ public:
          object.reDim(num());
       }
 
+      // removals move the scaling exponents together with the sides: the array must cover every row
+      if(num() > scaleExp.size())
+         scaleExp.reSize(num());
+
+      scaleExp[num() - 1] = 0;
       left[num() - 1] = *lhsValue;
       right[num() - 1] = *rhsValue;
 
